@@ -340,35 +340,34 @@ func runC15(w *core.World, r *core.Report) {
 				continue
 			}
 			nsig++
-			// a dominating comparison of the same value against State.FlagBitSize() / BitSize
-			guarded := false
+			// a dominating comparison of the same value against State.FlagBitSize() / BitSize, in the
+			// handler itself or in a helper of package vm that is given the value and returns an error
 			cut := core.NewCut()
-			for _, b := range h.Blocks {
-				for _, in := range b.Instrs {
-					bo, ok := in.(*ssa.BinOp)
-					if !ok {
+			guarded := rangeGuardEdges(h, a, cut)
+			for _, hc := range core.Calls(h) {
+				g := core.StaticCallee(hc)
+				if g == nil || core.PkgOf(g) != "vm" || g == h || len(g.Blocks) == 0 {
+					continue
+				}
+				for i, arg := range core.CallArgs(hc) {
+					if core.Strip(arg) != a || i >= len(g.Params) {
 						continue
 					}
-					var other ssa.Value
-					if core.Strip(bo.X) == a {
-						other = bo.Y
-					} else if core.Strip(bo.Y) == a {
-						other = bo.X
-					} else {
+					gcut := core.NewCut()
+					if !rangeGuardEdges(g, g.Params[i], gcut) {
 						continue
 					}
-					if !isFlagSize(other) {
+					// every success return of the helper lies behind its in-range edge
+					if in, _ := core.Reach(core.Entry(g), isSuccessReturnPred(g), gcut); in != nil {
 						continue
 					}
-					// edges on which a < size
-					inRangeWhenTrue := (bo.Op == token.LSS && core.Strip(bo.X) == a) || (bo.Op == token.GTR && core.Strip(bo.Y) == a)
-					outRangeWhenTrue := (bo.Op == token.GEQ && core.Strip(bo.X) == a) || (bo.Op == token.LEQ && core.Strip(bo.Y) == a)
-					if inRangeWhenTrue {
-						cut.AddEdge(core.EdgesWhere(bo, true)...)
-						guarded = true
-					} else if outRangeWhenTrue {
-						cut.AddEdge(core.EdgesWhere(bo, false)...)
-						guarded = true
+					if ev := callErr(hc); ev != nil {
+						for _, ce := range core.NilTestEdges(ev) {
+							if ce.Val {
+								cut.AddEdge(ce.E)
+								guarded = true
+							}
+						}
 					}
 				}
 			}
@@ -596,6 +595,11 @@ func primitiveKind(f *ssa.Function) string {
 					reads = true
 				}
 			}
+			if sl, ok := in.(*ssa.Slice); ok {
+				if _, isP := sl.X.(*ssa.Parameter); isP {
+					reads = true
+				}
+			}
 		}
 	}
 	if !reads {
@@ -733,4 +737,39 @@ func isFreshError(v ssa.Value) bool {
 		}
 	}
 	return false
+}
+
+// rangeGuardEdges adds to cut the edges of fn on which value a is known to be below the flag count
+// (a comparison of a itself - not of an expression that may wrap, like a+1 - with FlagBitSize()).
+func rangeGuardEdges(fn *ssa.Function, a ssa.Value, cut *core.Cut) bool {
+	found := false
+	for _, b := range fn.Blocks {
+		for _, in := range b.Instrs {
+			bo, ok := in.(*ssa.BinOp)
+			if !ok {
+				continue
+			}
+			var other ssa.Value
+			if core.Strip(bo.X) == a {
+				other = bo.Y
+			} else if core.Strip(bo.Y) == a {
+				other = bo.X
+			} else {
+				continue
+			}
+			if !isFlagSize(other) {
+				continue
+			}
+			inRangeWhenTrue := (bo.Op == token.LSS && core.Strip(bo.X) == a) || (bo.Op == token.GTR && core.Strip(bo.Y) == a)
+			outRangeWhenTrue := (bo.Op == token.GEQ && core.Strip(bo.X) == a) || (bo.Op == token.LEQ && core.Strip(bo.Y) == a)
+			if inRangeWhenTrue {
+				cut.AddEdge(core.EdgesWhere(bo, true)...)
+				found = true
+			} else if outRangeWhenTrue {
+				cut.AddEdge(core.EdgesWhere(bo, false)...)
+				found = true
+			}
+		}
+	}
+	return found
 }
